@@ -499,6 +499,11 @@ func (x *Exec) callWith(e *ast.CallExpr, st *State, recvVal Value, args []Value)
 		return x.abstractCall(e, st, "call through function value "+x.src(e.Fun), resT, args, recvVal)
 	}
 	key := funcKey(fn)
+	if fn.FullName() == "(*regexp.Regexp).MatchString" {
+		if v, ok := x.regexMatch(e, st, args); ok {
+			return v
+		}
+	}
 	// hard-wired library semantics
 	switch key {
 	case "fmt.Errorf":
@@ -575,7 +580,7 @@ func (x *Exec) freshResult(st *State, resT types.Type) Value {
 // havocked; slices passed as arguments may have been written.
 func (x *Exec) abstractCall(e *ast.CallExpr, st *State, what string, resT types.Type, args []Value, recvVal Value) Value {
 	x.abstr["callee without contract: "+what] = true
-	x.checkSinks(e, st, what, args)
+	x.checkSinks(e, st, what, args, recvVal)
 	if !x.coarse {
 		x.fail(e.Pos(), "call to %s: no contract (strict unit)", what)
 	}
@@ -746,7 +751,7 @@ func (x *Exec) applyContract(e *ast.CallExpr, st *State, fn *types.Func, c *Cont
 		x.oblige(st, "pre", callName+"."+r.Label, r.Label, g, e.Pos())
 		st.add(g)
 	}
-	x.checkSinks(e, st, c.Short, args)
+	x.checkSinks(e, st, c.Short, args, recvVal)
 	x.factSink = st
 	// frame
 	oldEnv := map[string]cbind{}
